@@ -158,3 +158,19 @@ def seq_of_pystr(s):
 
 def seq_of_pybytes(b):
     return SymSeq(conc_array(list(b)), 0, len(b), "bytes")
+
+
+class Opaque:
+    """Result of an external (non-coco) call whose value the contracts do not speak about (argparse parser, PIL image).
+    Any method call on it returns another Opaque; listed in the evidence as an assumed external."""
+
+    def __init__(self, what):
+        self.what = what
+
+    def __repr__(self):
+        return "<external %s>" % self.what
+
+
+class PngWriter:
+    def __init__(self, width, height, palette, bitdepth):
+        self.width, self.height, self.palette, self.bitdepth = width, height, palette, bitdepth
